@@ -31,20 +31,210 @@ fn params(tier: Tier, family: &str) -> (usize, Vec<(usize, bool)>) {
     }
 }
 
+// ---------------------------------------------------------------- corpus programs and their deviation-1 mutants
+// Every shipped .mmm file (library, examples, test fixtures) that is at most CORPUS_MAX_BYTES long, unmutated and
+// under every single token-level mutation from a small menu: a number literal replaced by 0.0 / 1.0 / 0.5 / 2.0, an
+// arithmetic operator by the other arithmetic operators, a comparison by two others, `&&` and `||` exchanged.
+// The file keeps its real path, so relative includes and `mod x;` resolve as they do for a user.
+const CORPUS_MAX_BYTES: usize = 4000;
+const LITERALS: [&str; 4] = ["0.0", "1.0", "0.5", "2.0"];
+struct CorpusSpace {
+    /// (corpus index, mutation sites: (byte start, byte length, replacement))
+    files: Vec<(usize, Vec<(usize, usize, &'static str)>)>,
+    /// cumulative number of cases (1 + sites per file)
+    cum: Vec<u64>,
+}
+fn mutation_sites(text: &str) -> Vec<(usize, usize, &'static str)> {
+    use mimium_lang::compiler::parser::{self, TokenKind as K};
+    let Ok(toks) = catch(|| parser::tokenize(text)) else { return vec![] };
+    let mut v = vec![];
+    for t in toks {
+        let orig = text.get(t.start..t.start + t.length).unwrap_or("");
+        let reps: &[&'static str] = match t.kind {
+            K::Float | K::Int => &LITERALS,
+            K::OpSum | K::OpMinus | K::OpProduct | K::OpDivide | K::OpModulo | K::OpExponent => &["+", "-", "*", "/", "%", "^"],
+            K::OpLessThan => &[">", "<="],
+            K::OpLessEqual => &["<", ">="],
+            K::OpGreaterThan => &["<", ">="],
+            K::OpGreaterEqual => &[">", "<="],
+            K::OpEqual => &["!=", "<="],
+            K::OpNotEqual => &["==", ">"],
+            K::OpAnd => &["||"],
+            K::OpOr => &["&&"],
+            _ => &[],
+        };
+        for r in reps {
+            if *r != orig {
+                v.push((t.start, t.length, *r));
+            }
+        }
+    }
+    v
+}
+fn is_recursive(text: &str) -> bool {
+    if text.contains("letrec ") {
+        return true;
+    }
+    for (i, _) in text.match_indices("fn ") {
+        let rest = &text[i + 3..];
+        let end = rest.find(|c: char| !(c.is_alphanumeric() || c == '_')).unwrap_or(rest.len());
+        if end == 0 {
+            continue;
+        }
+        let name = &rest[..end];
+        // the body: from the first `{` after the header to its matching `}`
+        let Some(open) = rest.find('{') else { continue };
+        let mut depth = 0i32;
+        let mut close = rest.len();
+        for (k, ch) in rest[open..].char_indices() {
+            match ch {
+                '{' => depth += 1,
+                '}' => {
+                    depth -= 1;
+                    if depth == 0 {
+                        close = open + k;
+                        break;
+                    }
+                }
+                _ => {}
+            }
+        }
+        let body = &rest[open..close];
+        if body.contains(&format!("{name}(")) || body.contains(&format!("{name}@")) {
+            return true;
+        }
+    }
+    false
+}
+fn corpus_space() -> &'static CorpusSpace {
+    static S: OnceLock<CorpusSpace> = OnceLock::new();
+    S.get_or_init(|| {
+        let mut files = vec![];
+        let mut cum = vec![0u64];
+        for (ci, f) in crate::corpus::corpus().iter().enumerate() {
+            if f.text.len() > CORPUS_MAX_BYTES || !f.text.contains("dsp") {
+                continue;
+            }
+            // no mutants of files with recursion (a function or letrec whose name occurs again as a callee, at run time
+            // or at the macro stage): a mutated bound or step makes the recursion unbounded, which is the program's
+            // meaning and kills the process on either backend
+            let sites = if is_recursive(&f.text) { vec![] } else { mutation_sites(&f.text) };
+            cum.push(cum.last().unwrap() + 1 + sites.len() as u64);
+            files.push((ci, sites));
+        }
+        CorpusSpace { files, cum }
+    })
+}
+/// quick tier: every file unmutated and every QUICK_MUTANT_STRIDE-th mutant
+const QUICK_MUTANT_STRIDE: u64 = 6;
+/// quick tier: mutants only of files up to this size (the larger ones pull in libraries and cost seconds per run)
+const QUICK_MUTANT_MAX_BYTES: usize = 1200;
+fn n_corpus() -> u64 {
+    *corpus_space().cum.last().unwrap()
+}
+fn corpus_case(k: u64) -> (usize, Option<(usize, usize, &'static str)>) {
+    let cs = corpus_space();
+    let fi = cs.cum.partition_point(|&c| c <= k) - 1;
+    let m = k - cs.cum[fi];
+    let (ci, sites) = &cs.files[fi];
+    (*ci, if m == 0 { None } else { Some(sites[(m - 1) as usize]) })
+}
+fn run_corpus_case(tier: Tier, k: u64) -> CaseOut {
+    let (ci, mutation) = corpus_case(k);
+    if tier == Tier::Quick && mutation.is_some() && (k % QUICK_MUTANT_STRIDE != 0 || crate::corpus::corpus()[ci].text.len() > QUICK_MUTANT_MAX_BYTES) {
+        return CaseOut { key: k, nontrivial: false, outcome: "not_in_quick_tier".into(), ..Default::default() };
+    }
+    let f = &crate::corpus::corpus()[ci];
+    let rel = f.path.strip_prefix(crate::corpus::repo_root()).unwrap_or(&f.path).to_string_lossy().to_string();
+    let (src, what) = match mutation {
+        None => (f.text.clone(), "unmutated".to_string()),
+        Some((s, l, r)) => {
+            let mut t = f.text.clone();
+            t.replace_range(s..s + l, r);
+            let line = f.text[..s].matches('\n').count() + 1;
+            (t, format!("`{}` -> `{r}` at byte {s} (line {line})", &f.text[s..s + l]))
+        }
+    };
+    let n = if tier == Tier::Thorough { 24 } else { 10 };
+    let stream = |t: usize, nin: usize| inputs_for(1, nin)(t);
+    crate::run::set_source_path(Some(f.path.clone()));
+    let vm = crate::run::full_run_auto(Backend::Vm, &src, true, n, &stream);
+    let wa = crate::run::full_run_auto(Backend::Wasm, &src, true, n, &stream);
+    crate::run::set_source_path(None);
+    let mut fails: Vec<Fail> = vec![];
+    let mut outcome = "agree";
+    let mut nontrivial = false;
+    let cfg = format!("{rel} {what}");
+    match (vm, wa) {
+        (Ok(a), Ok(b)) => {
+            nontrivial = true;
+            if a.io != b.io {
+                outcome = "differ";
+                fails.push(Fail { clause: "channel_count_differs".into(), detail: format!("{cfg}: vm io={:?} wasm io={:?}", a.io, b.io) });
+            } else if let Some((_, d)) = first_diff(&a.out, &b.out, bits_eq) {
+                outcome = "differ";
+                fails.push(Fail { clause: "output_differs".into(), detail: format!("{cfg}: {d} (vm vs wasm); vm={} wasm={}", show(&a.out, 6), show(&b.out, 6)) });
+            }
+        }
+        (Err(RunErr::Compile(_)), Err(RunErr::Compile(_))) => outcome = "both_reject",
+        (Err(RunErr::Compile(es)), _) => {
+            outcome = "differ";
+            fails.push(Fail { clause: "vm_rejects_wasm_accepts".into(), detail: format!("{cfg}: {}", es.join(" | ").chars().take(300).collect::<String>()) });
+        }
+        (_, Err(RunErr::Compile(es))) => {
+            outcome = "differ";
+            fails.push(Fail { clause: "wasm_rejects_vm_accepts".into(), detail: format!("{cfg}: {}", es.join(" | ").chars().take(300).collect::<String>()) });
+        }
+        (Err(RunErr::Crash(m)), Ok(_)) => {
+            outcome = "differ";
+            fails.push(Fail { clause: format!("vm_crash_{}_wasm_runs", crash_label(&m)), detail: format!("{cfg}: {m}") });
+        }
+        (Ok(_), Err(RunErr::Crash(m))) => {
+            outcome = "differ";
+            fails.push(Fail { clause: format!("wasm_crash_{}_vm_runs", crash_label(&m)), detail: format!("{cfg}: {m}") });
+        }
+        (Err(RunErr::Crash(_)), Err(RunErr::Crash(_))) => outcome = "both_crash",
+    }
+    let fname = f.path.file_name().map(|s| s.to_string_lossy().to_string()).unwrap_or_default();
+    let mut tags = vec!["corpus".to_string(), format!("file:{fname}"), if mutation.is_some() { "corpus_mutant".to_string() } else { "corpus_unmutated".to_string() }];
+    if let Some((_, _, r)) = mutation {
+        tags.push(format!("mutated_to:{r}"));
+    }
+    CaseOut {
+        key: fnv(format!("{rel}\n{src}").as_bytes()),
+        nontrivial,
+        outcome: outcome.into(),
+        fails,
+        tags,
+        repr: json!({"file": rel, "mutation": what, "source": if mutation.is_some() { src.chars().take(3000).collect::<String>() } else { String::new() }}),
+        counters: vec![("family_corpus".into(), 1), ("backend_runs".into(), 2), (if mutation.is_some() { "corpus_mutants".to_string() } else { "corpus_files".to_string() }, 1)],
+    }
+}
+
 impl Prop for C01 {
     fn id(&self) -> &'static str {
         "C01"
     }
     fn n_cases(&self, tier: Tier) -> u64 {
-        space(tier).n()
+        space(tier).n() + n_corpus()
     }
     fn chunk(&self, _t: Tier) -> u64 {
-        100
+        40
     }
     fn recycle_after(&self) -> u64 {
         4_000
     }
+    fn shards_per_job(&self) -> u64 {
+        24
+    }
+    fn expensive_cases_last(&self) -> bool {
+        // the corpus part (large files that pull in libraries) sits at the end of the index space
+        true
+    }
     fn run_case(&self, tier: Tier, idx: u64) -> CaseOut {
+        if idx >= space(tier).n() {
+            return run_corpus_case(tier, idx - space(tier).n());
+        }
         let (fname, g) = space(tier).get(idx);
         let Some(g) = g else {
             return CaseOut { key: idx, nontrivial: false, outcome: "invalid_index".into(), counters: vec![(format!("invalid_{fname}"), 1)], ..Default::default() };
@@ -116,6 +306,12 @@ impl Prop for C01 {
         }
     }
     fn describe_case(&self, tier: Tier, idx: u64) -> (Value, Vec<String>) {
+        if idx >= space(tier).n() {
+            let (ci, m) = corpus_case(idx - space(tier).n());
+            let f = &crate::corpus::corpus()[ci];
+            let fname = f.path.file_name().map(|s| s.to_string_lossy().to_string()).unwrap_or_default();
+            return (json!({"file": f.path.to_string_lossy(), "mutation": format!("{m:?}")}), vec!["corpus".into(), format!("file:{fname}")]);
+        }
         match space(tier).get(idx).1 {
             Some(g) => {
                 let src = g.source();
@@ -133,12 +329,12 @@ impl Prop for C01 {
                 "every operation sequence of the program families {} (built by the harness, printed to source) compiled and run on the bytecode VM (ExecContext/VmDspRuntime) and on the WASM backend (emit_wasm/WasmEngine/WasmDspRuntime, the CLI's path), same input streams ({STREAM_DESCR}), with the scheduler plugin installed and without; accept/reject, io channel counts and every output word of every sample compared bitwise (all NaNs identified). distinct = FNV-64 of source; non-trivial = both run and the output is not constant over time.",
                 space(tier).describe()
             ),
-            assumptions: vec!["both-backends-crash is left to C03".into(), "programs are the harness's families; corpus programs are covered by the repository's own fixture tests".into()],
+            assumptions: vec!["both-backends-crash is left to C03".into(), format!("corpus part: {} shipped files of at most {CORPUS_MAX_BYTES} bytes that mention dsp, each unmutated and under every single token mutation of the menu (number literal -> 0.0/1.0/0.5/2.0, arithmetic operator -> the others, comparison -> two others, && <-> ||): {} cases, run with the scheduler plugin and input stream 1 sized by the program's own input channels; the quick tier runs every file unmutated and every {QUICK_MUTANT_STRIDE}th mutant of the files of at most {QUICK_MUTANT_MAX_BYTES} bytes", corpus_space().files.len(), n_corpus())],
             bounds: json!({"families": space(tier).describe(), "samples_FX": 4, "samples_other": params(tier, "FS").0}),
             shape: "E",
         }
     }
     fn vacuity(&self, _t: Tier, c: &BTreeMap<String, u64>) -> Vec<String> {
-        ["family_FX", "family_FS", "family_FC", "family_FA", "family_FT"].iter().filter(|k| c.get(**k).copied().unwrap_or(0) == 0).map(|k| format!("{k} empty")).collect()
+        ["family_FX", "family_FS", "family_FC", "family_FA", "family_FT", "family_corpus"].iter().filter(|k| c.get(**k).copied().unwrap_or(0) == 0).map(|k| format!("{k} empty")).collect()
     }
 }
